@@ -348,6 +348,7 @@ def Ty.frag : Ty → Bool
   | .prim _ => true
   | .ident _ args => Ty.fragList args
   | .selfDefault args => Ty.fragList args
+  | .modty _ _ args => Ty.fragList args
   | .cycle _ => true
   | .resource _ => true
   | .tuple _ fs _ => Field.fragList fs
@@ -513,7 +514,7 @@ theorem printAtom_head {t : Ty} (hf : t.frag = true) (hw : t.wf = true) :
         exact ⟨c, _, by simp [printAtom, atomWrap, printTy, hl]; rfl, by simp [atomHead, hc]⟩
   | inter ts => exact ⟨'(', _, by simp [printAtom, atomWrap]; rfl, rfl⟩
   | proc a r => simp [Ty.frag] at hf
-  | modty a b c => simp [Ty.frag] at hf
+  | modty a b c => exact ⟨'\'', _, by simp [printAtom, atomWrap, printTy]; rfl, rfl⟩
   | selfDefault a => exact ⟨'\'', _, by simp [printAtom, atomWrap, printTy]; rfl, rfl⟩
 
 /-! ### One knot level -/
@@ -1208,6 +1209,111 @@ theorem quote_ok {rest : Str} (hr : stopB rest = true) :
     rw [base_quote k htt hmod, fio_quote k htt hmod, alt_of_fails hti, hsd]
     exact ⟨rfl, rfl⟩
 
+/-! ### Module types `'%m/n.t<args>` -/
+
+omit hk in
+/-- the path behind `%`: `m1/m2/…` -/
+theorem importPath_ok : ∀ (m : Str) (ms : List Str) (tail : Str), isIdentStr m = true →
+    ms.all isIdentStr = true → IdStop tail → headAll (· ≠ '/') tail = true →
+    sepList1 (pchar '/') identifier (sepBy ['/'] (m :: ms) ++ tail) = .ok (m :: ms) tail := by
+  intro m ms
+  have htail : ∀ (ms : List Str) (tail : Str), ms.all isIdentStr = true → IdStop tail →
+      headAll (· ≠ '/') tail = true →
+      sepTail (pchar '/') identifier ((ms.map (['/'] ++ ·)).flatten ++ tail) = .ok ms tail := by
+    intro ms
+    induction ms with
+    | nil => intro tail _ _ h; exact sepTail_of_fails (pchar_fails_of_head h)
+    | cons x xs ih =>
+      intro tail hall hid hh
+      simp only [List.all_cons, Bool.and_eq_true] at hall
+      simp only [List.map_cons, List.flatten_cons, List.append_assoc, List.cons_append, List.nil_append]
+      have hstop : IdStop ((xs.map (['/'] ++ ·)).flatten ++ tail) := by
+        cases xs with
+        | nil => simpa using hid
+        | cons y ys => simp [IdStop, isIdentBody, isLower, isUpper, isDigit]
+      refine sepTail_cons (Sound.pchar _) Sound.identifier (pchar_self _ _) (by simp) ?_
+        (ih tail hall.2 hid hh)
+      exact identifier_append hall.1 hstop
+  intro tail hm hall hid hh
+  rw [sepBy_cons, List.append_assoc]
+  have hstop : IdStop ((ms.map (['/'] ++ ·)).flatten ++ tail) := by
+    cases ms with
+    | nil => simpa using hid
+    | cons y ys => simp [IdStop, isIdentBody, isLower, isUpper, isDigit]
+  exact sepList1_cons (identifier_append hm hstop) (htail ms tail hall hid hh)
+
+theorem module_ok {m : List Str} {mem : Option Str} {args : List Ty}
+    (hw : (Ty.modty m mem args).wf = true) (hf : Ty.fragList args = true)
+    (hl : Ty.lvAList args ≤ L) {rest : Str} (hr : stopB rest = true) :
+    baseTypeWith k (printTy (.modty m mem args) ++ rest) = .ok (.modty m mem args) rest ∧
+    functionIoType k (printTy (.modty m mem args) ++ rest) = .ok (.modty m mem args) rest := by
+  simp only [Ty.wf, Bool.and_eq_true, Bool.not_eq_true', List.isEmpty_eq_false_iff] at hw
+  obtain ⟨⟨⟨hne, hall⟩, hmem⟩, hwa⟩ := hw
+  cases m with
+  | nil => exact absurd rfl hne
+  | cons m1 ms =>
+    simp only [List.all_cons, Bool.and_eq_true] at hall
+    have hah := angle_head args hr
+    -- what follows the path
+    obtain ⟨after, hdef⟩ : ∃ after : Str, after =
+        (match mem with | some x => '.' :: x | none => []) ++ (angle (printTys args) ++ rest) := ⟨_, rfl⟩
+    have hp : printTy (.modty (m1 :: ms) mem args) ++ rest = '\'' :: '%' :: (sepBy ['/'] (m1 :: ms) ++ after) := by
+      rw [hdef]; cases mem <;> simp [printTy]
+    have hslash : headAll (· ≠ '/') (angle (printTys args) ++ rest) = true ∧
+        headAll (· ≠ '.') (angle (printTys args) ++ rest) = true := by
+      cases args with
+      | nil =>
+        simp only [printTys, angle, List.isEmpty_nil, if_true, List.nil_append]
+        exact ⟨stopB_head hr (c := '/') rfl, stopB_head hr (c := '.') rfl⟩
+      | cons a as => simp [angle, printTys, headAll]
+    have hafter : IdStop after ∧ headAll (· ≠ '/') after = true := by
+      cases mem with
+      | none => rw [hdef]; simp only [List.nil_append]; exact ⟨hah.1, hslash.1⟩
+      | some x => rw [hdef]; simp [IdStop, isIdentBody, isLower, isUpper, isDigit, headAll]
+    have hpath : importPath ('%' :: (sepBy ['/'] (m1 :: ms) ++ after)) = .ok (m1 :: ms) after := by
+      unfold importPath
+      rw [seq_ok (pchar_self _ _)]
+      exact importPath_ok m1 ms after hall.1 hall.2 hafter.1 hafter.2
+    have hmemp : opt (seq (pchar '.') identifier) after = .ok mem (angle (printTys args) ++ rest) := by
+      cases mem with
+      | none =>
+        rw [hdef]; simp only [List.nil_append]
+        exact opt_of_fails (Fails.seq (pchar_fails_of_head hslash.2))
+      | some x =>
+        have hx : isIdentStr x = true := hmem
+        have : seq (pchar '.') identifier ('.' :: (x ++ (angle (printTys args) ++ rest))) =
+            .ok x (angle (printTys args) ++ rest) := by
+          rw [seq_ok (pchar_self _ _)]; exact identifier_append hx hah.1
+        rw [hdef]; simp only [List.cons_append]
+        exact opt_ok this
+    have hmod : moduleType k ('\'' :: '%' :: (sepBy ['/'] (m1 :: ms) ++ after)) =
+        .ok (.modty (m1 :: ms) mem args) rest := by
+      unfold moduleType
+      rw [seq_ok (pchar_self _ _), bind_ok hpath, bind_ok hmemp, pmap_ok (optArgs_ok hk hf hwa hl hr).1]
+    have htnf : Fails typeName ('\'' :: '%' :: (sepBy ['/'] (m1 :: ms) ++ after)) :=
+      Fails.seq_ok (pchar_self _ _) (identifier_fails_of_head (by simp [headAll, isLower]))
+    have htt : Fails (tupleType k) ('\'' :: '%' :: (sepBy ['/'] (m1 :: ms) ++ after)) := by
+      unfold tupleType
+      exact Fails.alt (Fails.bind (tupleName_fails_of_head (by simp [headAll, isUpper])))
+        (Fails.alt (Fails.verify (Fails.bind htnf))
+        (Fails.alt (Fails.pmap (fieldsIn_fails_head k _ _ (by simp [headAll])))
+          (Fails.bind (tupleName_fails_of_head (by simp [headAll, isUpper])))))
+    rw [hp]
+    refine ⟨?_, ?_⟩
+    · unfold baseTypeWith
+      rw [alt_of_fails htt, alt_of_fails (partialType_fails_head k (by simp [headAll, isUpper])),
+        alt_of_fails (resourceType_fails_head (by simp [headAll])),
+        alt_of_fails (typeCycle_fails_head (by simp [headAll])),
+        alt_of_fails (processType_fails_head k (by simp [headAll]) (by simp [headAll])),
+        alt_of_fails (typeParameter_fails_head (by simp [headAll])), alt_of_ok hmod]
+    · unfold functionIoType
+      rw [alt_of_fails (partialType_fails_head k (by simp [headAll, isUpper])),
+        alt_of_fails (groupType_fails_head k (by simp [headAll])), alt_of_fails htt,
+        alt_of_fails (resourceType_fails_head (by simp [headAll])),
+        alt_of_fails (typeCycle_fails_head (by simp [headAll])),
+        alt_of_fails (processType_fails_head k (by simp [headAll]) (by simp [headAll])),
+        alt_of_ok hmod]
+
 /-- (A) and (C): the printed atom is read back by `base_type` and by `function_input_type` one
     level above the knot -/
 theorem atom_ok {t : Ty} (hf : t.frag = true) (hw : t.wf = true) (hl : t.lvA ≤ L + 1) {rest : Str}
@@ -1322,7 +1428,10 @@ theorem atom_ok {t : Ty} (hf : t.frag = true) (hw : t.wf = true) (hl : t.lvA ≤
     rw [hp] at htd
     exact paren_wrap hk hfacts.2.2.2.1 hfacts.2.2.2.2.2.2 hfacts.2.2.1 hfacts.2.1 hfacts.2.2.2.2.2.1 htd
   | proc a r => simp [Ty.frag] at hf
-  | modty a b c => simp [Ty.frag] at hf
+  | modty m mem args =>
+    simp only [Ty.frag] at hf
+    have hla : Ty.lvAList args ≤ L := by simp only [Ty.lvA] at hl; omega
+    exact module_ok hk hw hf hla hr
   | selfDefault args =>
     simp only [Ty.frag] at hf
     simp only [Ty.wf] at hw
